@@ -17,7 +17,7 @@
      3  iiter differs from the model's run with the same niter / tol (skipped near a tie kold ~ tol)
      4  the model does NOT reach the minimiser in k_nconv steps: kold <> 0 or normal equations not satisfied exactly
      5  r2norm^2 differs from the model's r2norm^2          (cgls)
-     6  r1norm differs from the model's r1norm (= kold)      (cgls)
+     6  r1norm^2 differs from the model's r1norm^2          (cgls)
      7  istop differs from the model's (skipped near a tie) (cgls)
      9  the functional J(x_k) increases along the MODEL iterates (cgls)
     10  implementation alone: cost_k^2 is not ||y - A x_k||^2 of its own k-th iterate
@@ -53,7 +53,7 @@ Record irun := { r_id : nat; r_niter : nat; r_tol : Qc; r_exec : bool;
   r_x : vec; r_iiter : nat; r_cost : list Qc; r_istop : nat; r_r1 : Qc; r_r2 : Qc;
   r_cbs : list vec; r_trace : bool; r_begins : list vec; r_ends : list vec }.
 Record kase := { k_id : nat; k_solver : nat; k_n : nat; k_A : list (list F); k_y : vec; k_x0 : option vec;
-  k_damp : Qc; k_nconv : nat; k_fixed : bool; k_runs : list irun }.
+  k_damp : Qc; k_nconv : nat; k_runs : list irun }.
 
 Definition code (b : bool) (c : nat) : list nat := if b then [] else [c].
 Fixpoint iter_list {St} (step : St -> St) (k : nat) (st : St) : list St :=
@@ -88,7 +88,7 @@ Definition impl_checks (tol : Qc) (c : kase) (r : irun) : list nat :=
      code (nonincr (tol / qz 100)%Qc (map (impl_J c) xs)) 14
    else []).
 
-(* what the model says a run returns / shows: iterates x_0..x_it, cost^2 list, r1norm, r2norm^2, iiter, istop *)
+(* what the model says a run returns / shows: iterates x_0..x_it, cost^2 list, r1norm^2, r2norm^2, iiter, istop *)
 Record mout := { o_xs : list vec; o_cost2 : list F; o_r1 : F; o_r2sq : F; o_iiter : nat; o_istop : nat }.
 
 Definition cmp_run (tol : Qc) (cgls inplace : bool) (tie : bool) (r : irun) (o : mout) : list nat :=
@@ -99,7 +99,7 @@ Definition cmp_run (tol : Qc) (cgls inplace : bool) (tie : bool) (r : irun) (o :
   code (tie || Nat.eqb (o_iiter o) it) 3 ++
   (if cgls then
      code (close tol (sq (r_r2 r)) (re (o_r2sq o))) 5 ++
-     code (close tol (r_r1 r) (re (o_r1 o))) 6 ++
+     code (close tol (sq (r_r1 r)) (re (o_r1 o))) 6 ++
      code (tie || Nat.eqb (o_istop o) (r_istop r)) 7
    else []) ++
   (if r_trace r then
@@ -134,7 +134,7 @@ Definition chk_cg (tol : Qc) (c : kase) : list (nat * list nat) :=
 Definition chk_cgls (tol : Qc) (c : kase) : list (nat * list nat) :=
   let A := k_A c in let n := k_n c in
   let damp := ofQ (k_damp c) in
-  let st0 := cgls_setup F absf n A (k_fixed c) (k_y c) (k_x0 c) damp in
+  let st0 := cgls_setup F absf n A (k_y c) (k_x0 c) damp in
   let K := fold_right Nat.max (k_nconv c) (map r_iiter (k_runs c)) in
   let sts := iter_list (cgls_step F absf n A) K st0 in
   let kolds := map (cl_kold F) sts in
@@ -150,11 +150,11 @@ Definition chk_cgls (tol : Qc) (c : kase) : list (nat * list nat) :=
     let tie := near_tie (r_tol r) (map re kolds) in
     let sf := nth it sts st0 in
     let itl := stop_index (r_niter r) tolF 0 kolds in
-    let lst := {| o_xs := map (cl_x F) (firstn (S it) sts); o_cost2 := cl_cost2 F sf; o_r1 := cgls_r1norm F sf;
+    let lst := {| o_xs := map (cl_x F) (firstn (S it) sts); o_cost2 := cl_cost2 F sf; o_r1 := cgls_r1norm2 F sf;
                   o_r2sq := cgls_r2norm2 F sf; o_iiter := itl; o_istop := cgls_istop F gtb (nth itl sts st0) tolF |} in
     let o := if r_exec r then
                let '(x, istop, itr, r1, r2sq, cost2, log) :=
-                 cgls_solve F absf gtb n A (k_fixed c) (k_y c) (k_x0 c) (r_niter r) damp tolF in
+                 cgls_solve F absf gtb n A (k_y c) (k_x0 c) (r_niter r) damp tolF in
                if Nat.eqb itr it then
                  {| o_xs := x_init c :: callbacks_of log; o_cost2 := cost2; o_r1 := r1; o_r2sq := r2sq; o_iiter := itr; o_istop := istop |}
                else {| o_xs := o_xs lst; o_cost2 := o_cost2 lst; o_r1 := o_r1 lst; o_r2sq := o_r2sq lst; o_iiter := itr; o_istop := istop |}
